@@ -13,6 +13,7 @@ CONSTANTS
   Parts = {FALSE}
   MaxCancel = 1
   MaxFault = 0
+  Zeros = FALSE
   Dev = {}
   Record = FALSE
 INVARIANTS
